@@ -376,13 +376,13 @@ fn c01_alphabet(cfg: &HybCfg, tier: Tier) -> Vec<Vec<HOp>> {
         vec![HOp::Fill { n: 2 }],
         vec![HOp::Wait],
         vec![HOp::Close, HOp::Reopen],
+        vec![HOp::Clear],
     ];
     if tier == Tier::Thorough {
         a.push(vec![HOp::Ins { k: 2, sz: 100, loc: Loc::Default }]);
         a.push(vec![HOp::Get { k: 2 }]);
         a.push(vec![HOp::SwIns { k: 1, sz: 100 }]);
         a.push(vec![HOp::Ins { k: 1, sz: 100, loc: Loc::OnDisk }]);
-        a.push(vec![HOp::Clear]);
     }
     a
 }
@@ -473,7 +473,7 @@ pub fn props() -> Vec<HybProp> {
         owned: vec!["R.", "X."],
         jobs: c01_jobs,
         judge: c01_judge,
-        rule: "Engine V: every program of up to 3 client calls over {insert small / 2-page / oversize, remove, get, get_or_fetch, fill (evict memory), wait, close+reopen} (+ second key, storage-writer insert, on-disk insert, clear in the thorough tier) on a real HybridCache over a real FsDevice directory, for both write policies x tombstone log on/off (+ all memory algorithms, zstd/lz4, 2 flushers in the thorough tier); each program is executed under three base schedules (Eager, LazyIo, ClientFirst) and every schedule within the deviation bound of the base schedule is explored (which ready task is polled next, which pending device IO completes next, when the next client call is issued). Values carry (key, version); every lookup during the program, after quiescence and after a graceful restart is judged by the version-register oracle R. A case is distinct if its lookup results or its device IO trace differ.",
+        rule: "Engine V: every program of up to 3 client calls over {insert small / 2-page / oversize, remove, get, get_or_fetch, fill (evict memory), wait, close+reopen, clear} (+ second key, storage-writer insert, on-disk insert in the thorough tier) on a real HybridCache over a real FsDevice directory, for both write policies x tombstone log on/off (+ all memory algorithms, zstd/lz4, 2 flushers in the thorough tier); each program is executed under three base schedules (Eager, LazyIo, ClientFirst) and every schedule within the deviation bound of the base schedule is explored (which ready task is polled next, which pending device IO completes next, when the next client call is issued). Values carry (key, version); every lookup during the program, after quiescence and after a graceful restart is judged by the version-register oracle R. A case is distinct if its lookup results or its device IO trace differ.",
         assumptions: vec![
             "write shedding limits are far above the workload (none may trigger)",
             "placement advice of a key never alternates between in-memory-only and disk",
